@@ -177,6 +177,92 @@ def matcher_clone_obligations(ctx, rule):
                            what="%s hands arg_matcher `%s` as the type string instead of rtosc_argument_string(message)" % (q, A.src(a)))
 
 
+# ---------------------------------------------------------------------------------------------------------------------
+# R04.7: the verification step of the hashed lookup decides like the documented matching of a literal name
+
+_NB, _MSGB = 20000, 30000
+HM_NAMES = ["a", "ab", "abcd", "a/", "ab/", "b"]
+HM_MSGS = ["a", "ab", "abc", "abcd", "abcde", "a/", "a/b", "ab/", "ab/c", "b", "ba", ""]
+
+
+def hard_match_table(u, fn):
+    """{(name, address): verdict of Port_Matcher::hard_match} with fixed[i] = name, no argument spec"""
+    tab = {}
+    for name in HM_NAMES:
+        for msg in HM_MSGS:
+            def deref(addr, n, name=name, msg=msg):
+                if _NB <= addr <= _NB + len(name):
+                    return ord(name[addr - _NB]) if addr - _NB < len(name) else 0
+                if _MSGB <= addr <= _MSGB + len(msg) + 3:
+                    return ord(msg[addr - _MSGB]) if addr - _MSGB < len(msg) else 0
+                raise FD.Unknown("read outside the probe strings", n)
+
+            def strn(a, b, n_, node):
+                for k in range(n_):
+                    x, y = deref(a + k, node), deref(b + k, node)
+                    if x != y:
+                        return -1 if x < y else 1
+                    if x == 0:
+                        return 0
+                return 0
+
+            def hook(n, ev, name=name):
+                k = n.get("kind")
+                if k == "CXXOperatorCallExpr" and "operator[]" in A.src(A.kids(n)[0]):
+                    base = A.strip_casts(A.kids(n)[1])
+                    if base.get("kind") == "MemberExpr" and base.get("name") == "fixed":
+                        return "NAME"
+                    if base.get("kind") == "MemberExpr" and base.get("name") == "arg_spec":
+                        return 0
+                if k == "CXXMemberCallExpr":
+                    callee = A.strip_casts(A.kids(n)[0])
+                    if callee.get("kind") == "MemberExpr" and A.kids(callee):
+                        obj = ev.ev(A.kids(callee)[0])
+                        if obj == "NAME":
+                            m_ = callee.get("name")
+                            if m_ in ("c_str", "data"):
+                                return _NB
+                            if m_ in ("length", "size"):
+                                return len(name)
+                            if m_ == "empty":
+                                return 1 if not name else 0
+                            if m_ == "back":
+                                if not name:
+                                    raise FD.Unknown("back() of an empty name", n)
+                                return ord(name[-1])
+                            if m_ == "front":
+                                return ord(name[0]) if name else 0
+                            raise FD.Unknown("std::string::%s" % m_, n)
+                if k == "ArraySubscriptExpr":
+                    b_ = ev.ev(A.kids(n)[0])
+                    i_ = ev.ev(A.kids(n)[1])
+                    if isinstance(b_, int):
+                        return deref(b_ + i_, n)
+                return NotImplemented
+
+            def call(nm, vals, n):
+                if nm == "strncmp" or nm == "memcmp":
+                    return strn(vals[0], vals[1], vals[2], n)
+                if nm == "strcmp":
+                    return strn(vals[0], vals[1], 10 ** 4, n)
+                if nm == "strlen":
+                    k_ = 0
+                    while deref(vals[0] + k_, n):
+                        k_ += 1
+                    return k_
+                raise FD.Unknown("call to %s" % nm, n)
+            ev = FD.Eval(deref=deref, call=call, node_hook=hook, max_steps=3000)
+            r = ev.call_function(u, fn, [0, _MSGB])
+            tab[(name, msg)] = 1 if r else 0
+    return tab
+
+
+def literal_name_matches(name, address):
+    """the documented meaning of a literal port name: a subtree `name/` takes every address below it, any other name
+    only the address that spells it"""
+    return address.startswith(name) if name.endswith("/") else address == name
+
+
 def run(ctx):
     u = ctx.ast(UNIT)
     m = ctx.ir(UNIT)
@@ -447,3 +533,55 @@ def run(ctx):
                 bad.append({"t": tv, "remap.size()": 2, "default_handler": bool(dh)})
     ctx.ob("R04.6", "remap[t] in range", not bad and all(r for _, r in conds), site=A.where(top), detail={"conditions": [A.src(c) for c, _ in conds], "reaches_table_access_with": bad},
            what="remap[t] can be read with %s" % bad[:2])
+
+    # ---- R04.7
+    ctx.rule("R04.7", "HASH-VERIFY: the verification of the port the perfect hash selects (Port_Matcher::hard_match), evaluated over literal names x addresses, accepts exactly what the documented matching of a literal name accepts - a subtree `name/` every address below it, any other name only the address that spells it - so the hashed strategy invokes the ports the linear scan invokes")
+    hm = u.function("Port_Matcher::hard_match")
+    try:
+        htab = hard_match_table(u, hm)
+    except FD.Unknown as e:
+        raise AnalysisBroken("R04.7: hard_match not evaluable: %s" % e)
+    hbad = [{"port_name": k[0], "address": k[1], "hard_match": v, "documented": int(literal_name_matches(*k))} for k, v in sorted(htab.items()) if bool(v) != literal_name_matches(*k)]
+    ctx.ob("R04.7", "hard_match", not hbad, site=A.where(hm), detail={"probes": len(htab), "mismatches": hbad[:6]},
+           what="the hashed lookup's verification decides differently from the pattern language on %s" % hbad[:3])
+
+    # ---- R04.8
+    ctx.rule("R04.8", "HASH-COLLISION-CHECK: the remap table of the perfect hash is built (find_remap) only on the zero-duplicates edge of a count_dups test made after find_assoc; otherwise the table falls back to the linear scan - the additive hash cannot separate anagrams and the search for its weights is a bounded heuristic")
+    gens = [x for x in m.functions.values() if re.match(r'^generate_minimal_hash\(std::vector<', P.dm(x.name))]
+    ctx.require(len(gens) == 1, "R04.8: generate_minimal_hash(std::vector<std::string>, Port_Matcher&) not found in IR (%d)" % len(gens))
+    g = gens[0]
+
+    def _calls_named(pat):
+        return [c for c in g.calls() if not c.indirect and c.callee and re.match(pat, P.dm(c.callee))]
+    fa_ = _calls_named(r'^find_assoc\(')
+    fr_ = _calls_named(r'^find_remap\(')
+    cd_ = _calls_named(r'^(int )?count_dups<')
+    ctx.require(len(fa_) == 1 and len(fr_) == 1, "R04.8: find_assoc / find_remap calls not found (%d, %d)" % (len(fa_), len(fr_)))
+    ok8 = False
+    how8 = None
+    for cd in cd_:
+        if not g.dominates(fa_[0], cd):
+            continue
+        # the result, possibly through a spill slot, compared with 0
+        vals8 = {cd.res}
+        for i in g.insts():
+            if i.op == "store" and G.parse_store(i)[0] in vals8:
+                slot8 = G.parse_store(i)[1]
+                vals8 |= {j.res for j in g.insts() if j.op == "load" and G.parse_load(j) == slot8}
+        for i in g.insts():
+            if i.op != "icmp":
+                continue
+            mm = re.match(r'^icmp (\w+) i32 (\S+), (\S+?)(?:,|$)', i.text)
+            if not mm or mm.group(1) not in ("eq", "ne", "sgt", "ugt", "slt", "sle"):
+                continue
+            a8, b8 = mm.group(2), mm.group(3)
+            if not ((a8 in vals8 and b8 == "0") or (b8 in vals8 and a8 == "0")):
+                continue
+            for j in i.block.insts:
+                if j.op == "br" and i.res in j.ops and len(j.succs) == 2:
+                    pred8 = mm.group(1)
+                    zero_edge = j.succs[0] if pred8 == "eq" else j.succs[1] if pred8 in ("ne", "sgt", "ugt") and a8 in vals8 else None
+                    if zero_edge is not None and g.edge_dominates(j.block.label, zero_edge, fr_[0]):
+                        ok8, how8 = True, i.where()
+    ctx.ob("R04.8", "generate_minimal_hash", ok8, site=fr_[0].where(), detail={"collision_test": how8, "count_dups_calls_after_find_assoc": len([c for c in cd_ if g.dominates(fa_[0], c)])},
+           what="generate_minimal_hash builds the remap table without having tested the final hash for duplicates: two names on one hash value make the earlier port unreachable through the hashed lookup")
